@@ -1,5 +1,143 @@
 import ZoektModel.Basic.Proto
+import ZoektModel.C33.Spec
 namespace ZoektModel.C33
-/-- stub: no model driver for C33 yet -/
-def main : IO Unit := ZoektModel.Proto.runLines (fun _ => ZoektModel.Proto.badCase "no model driver for C33")
+open ZoektModel ZoektModel.Proto
+
+/-! ### wire format (all strings hex-encoded UTF-8, `-` = empty string, `_` = empty list) -/
+
+def hexStr? (s : String) : Option String := do
+  let bs ← hexToBytes? s
+  String.fromUTF8? bs.toByteArray
+
+def strHex (s : String) : String := bytesToHex s.toUTF8.toList
+
+def list? {α} (sep : String) (f : String → Option α) (s : String) : Option (List α) :=
+  if s == "_" then some [] else (s.splitOn sep).mapM f
+
+def showL {α} (sep : String) (f : α → String) (l : List α) : String :=
+  if l.isEmpty then "_" else sep.intercalate (l.map f)
+
+/-- shard: `path:name:source:ver:opt:metaOk:sidecar` -/
+def parseShard (s : String) : Option Shard :=
+  match s.splitOn ":" with
+  | [p, n, src, v, o, m, sc] => do
+    pure ⟨← hexStr? p, ← hexStr? n, ← hexStr? src, ← hexStr? v, ← bool? o, ← bool? m, ← bool? sc⟩
+  | _ => none
+
+def showShard (s : Shard) : String :=
+  ":".intercalate [strHex s.path, strHex s.name, strHex s.source, strHex s.ver, showBool s.optOk, showBool s.metaOk,
+    showBool s.sidecar]
+
+/-- repo: `name:source:head:shard0:more:nNew`, head `!` = IndexGitRepo fails -/
+def parseRepo (s : String) : Option Repo :=
+  match s.splitOn ":" with
+  | [n, src, h, p0, more, k] => do
+    let head ← if h == "!" then some none else (hexStr? h).map some
+    pure ⟨← hexStr? n, ← hexStr? src, head, ← hexStr? p0, ← list? "," hexStr? more, ← k.toNat?⟩
+  | _ => none
+
+def showAction (a : Action) : String :=
+  "/".intercalate [strHex a.shard, strHex a.name, strHex a.source, strHex a.reason]
+
+def showEvent : Event → String
+  | .wouldRemove a => "WR/" ++ showAction a
+  | .removing a => "RM/" ++ showAction a
+  | .indexing n s => s!"IG/{strHex n}/{strHex s}"
+  | .indexed n s => s!"ID/{strHex n}/{strHex s}"
+  | .wouldIndex n s => s!"WI/{strHex n}/{strHex s}"
+  | .upToDate n s => s!"UP/{strHex n}/{strHex s}"
+  | .passF => "PF"
+
+def parseEvent (s : String) : Option Event :=
+  match s.splitOn "/" with
+  | ["WR", p, n, src, r] => do pure (.wouldRemove ⟨← hexStr? p, ← hexStr? n, ← hexStr? src, ← hexStr? r⟩)
+  | ["RM", p, n, src, r] => do pure (.removing ⟨← hexStr? p, ← hexStr? n, ← hexStr? src, ← hexStr? r⟩)
+  | ["IG", n, src] => do pure (.indexing (← hexStr? n) (← hexStr? src))
+  | ["ID", n, src] => do pure (.indexed (← hexStr? n) (← hexStr? src))
+  | ["WI", n, src] => do pure (.wouldIndex (← hexStr? n) (← hexStr? src))
+  | ["UP", n, src] => do pure (.upToDate (← hexStr? n) (← hexStr? src))
+  | ["PF"] => some .passF
+  | _ => none
+
+def sortInv (inv : Inv) : Inv := inv.mergeSort (fun a b => decide (a.path ≤ b.path))
+
+def showErr : Option SelErr → String
+  | none => "ok" | some .notFound => "notfound" | some .ambiguous => "ambiguous"
+
+def render (pv : List Event) (pverr : String) (pvpost : Inv) (fc : List Event) (fcerr : String) (post : Inv) : String :=
+  s!"pv={showL "," showEvent pv} pverr={pverr} pvpost={showL ";" showShard (sortInv pvpost)} " ++
+  s!"fc={showL "," showEvent fc} fcerr={fcerr} post={showL ";" showShard (sortInv post)}"
+
+structure Impl where
+  pv : List Event
+  pverr : String
+  pvpost : Inv
+  fc : List Event
+  fcerr : String
+  post : Inv
+
+def kv? (key s : String) : Option String :=
+  if s.startsWith (key ++ "=") then some (s.drop (key.length + 1)).toString else none
+
+def parseImpl (s : String) : Option Impl :=
+  match fields s with
+  | [a, b, c, d, e, f] => do
+    pure ⟨← list? "," parseEvent (← kv? "pv" a), ← kv? "pverr" b, ← list? ";" parseShard (← kv? "pvpost" c),
+          ← list? "," parseEvent (← kv? "fc" d), ← kv? "fcerr" e, ← list? ";" parseShard (← kv? "post" f)⟩
+  | _ => none
+
+/-- verdict on the implementation's behaviour (the property's executable statement) -/
+def verdict (model : String) (inv : Inv) (desired : List Repo) (i : Impl) : String :=
+  if !(unchanged (sortInv inv) (sortInv i.pvpost)) then specFail model "preview-not-pure"
+  else if i.pverr != i.fcerr then specFail model "preview-error-differs"
+  else if !(faithful i.pv i.fc) then
+    -- class of the discrepancy: only repositories whose canonical shard is announced for removal ("moved", same name)
+    let moved := desired.filter (fun r => r.shard0 ∈ announcedRemovals i.pv)
+    let diff := ((announcedIndexing i.pv).filter (· ∉ performedIndexing i.fc)) ++
+                ((performedIndexing i.fc).filter (· ∉ announcedIndexing i.pv))
+    if sameSet (announcedRemovals i.pv) (performedRemovals i.fc) && !diff.isEmpty &&
+       diff.all (fun d => moved.any (fun r => r.name = d.1)) then specFail model "unfaithful:moved-same-name"
+    else specFail model "unfaithful"
+  else answer model
+
+def boolErr (b : Bool) : String := if b then "err" else "ok"
+
+/-- the hypothesis `WF` of the theorems, checked on every case: shard paths of distinct repositories do not interfere -/
+def apartAll : List Repo → Bool
+  | [] => true
+  | a :: t => t.all (fun b => !((b.shard0 :: b.more).contains a.shard0) && !((a.shard0 :: a.more).contains b.shard0)) && apartAll t
+
+/-- `plan <cwd> <desired> <shards>`: planPrune only (impl = actions) -/
+def handle (line : String) : String :=
+  let (inp, impl) := splitCase line
+  match fields inp with
+  | ["sync", cwd, ds, ss] =>
+    match hexStr? cwd, list? ";" parseRepo ds, list? ";" parseShard ss with
+    | some cwd, some desired, some inv =>
+      if !apartAll desired then badCase "shard paths of two repositories interfere" else
+      let p := runSync false cwd desired inv
+      let f := runSync true cwd desired inv
+      let model := render p.events (boolErr p.err) p.inv f.events (boolErr f.err) f.inv
+      match parseImpl impl with
+      | none => badCase "impl output"
+      | some i => verdict model inv desired i
+    | _, _, _ => badCase "fields"
+  | ["remove", cwd, sels, ss] =>
+    match hexStr? cwd, list? "," hexStr? sels, list? ";" parseShard ss with
+    | some cwd, some sels, some inv =>
+      let p := runRemove false cwd sels inv
+      let f := runRemove true cwd sels inv
+      let model := render p.events (showErr p.err) p.inv f.events (showErr f.err) f.inv
+      match parseImpl impl with
+      | none => badCase "impl output"
+      | some i => verdict model inv [] i
+    | _, _, _ => badCase "fields"
+  | ["plan", cwd, ds, ss] =>
+    match hexStr? cwd, list? ";" parseRepo ds, list? ";" parseShard ss with
+    | some cwd, some desired, some inv =>
+      answer (showL "," showAction (planPrune cwd desired inv))
+    | _, _, _ => badCase "fields"
+  | _ => badCase "op"
+
+def main : IO Unit := runLines handle
 end ZoektModel.C33
